@@ -1,19 +1,36 @@
 #!/bin/bash
-# usage: tools/mutant.sh <Cxx> <file-in-repo> <python-regex-or-literal old> <new> [extra fv args]
-# Applies a one-off textual mutation to /repo, runs the quick check, restores.
-prop=$1; file=$2; old=$3; new=$4; shift 4
-cd /repo || exit 2
-if [ -n "$(git status --porcelain)" ]; then echo "repo dirty"; exit 2; fi
-python3 - "$file" "$old" "$new" <<'PY'
+# usage: tools/mutant.sh <Cxx> <file-in-repo> <old-literal> <new-literal> [extra fv args]
+#        tools/mutant.sh <Cxx> --patch <patch-file> [extra fv args]
+# Applies a mutation to a scratch worktree of /repo (never to /repo itself),
+# builds a scratch copy of the harness against it and runs the quick check.
+# Scratch lives in /tmp/wt_main and /tmp/h_main; remove with tools/mutant.sh --clean
+set -u
+wt=/tmp/wt_main; h=/tmp/h_main
+if [ "${1:-}" = "--clean" ]; then
+    git -C /repo worktree remove --force $wt 2>/dev/null; rm -rf $h $wt; git -C /repo worktree prune; exit 0
+fi
+prop=$1; shift
+if [ ! -d $wt ]; then git -C /repo worktree add -q --detach $wt HEAD || exit 2; fi
+head=$(git -C /repo rev-parse HEAD)
+git -C $wt checkout -q --detach $head && git -C $wt reset -q --hard && git -C $wt clean -qfd -e target
+mkdir -p $h/harness $h/evidence $h/replays
+rsync -a --delete --exclude target /verif/harness/ $h/harness/
+sed -i "s#/repo/#$wt/#g" $h/harness/Cargo.toml
+cp /verif/known_findings.json /verif/properties.jsonl $h/
+if [ "$1" = "--patch" ]; then
+    git -C $wt apply "$2" || { echo "PATCH DOES NOT APPLY"; exit 3; }
+    shift 2
+else
+    file=$1; old=$2; new=$3; shift 3
+    python3 - "$wt/$file" "$old" "$new" <<'PY' || exit 3
 import sys
 p,old,new=sys.argv[1:4]
 s=open(p).read()
 if s.count(old)<1: print("PATTERN NOT FOUND"); sys.exit(3)
-s=s.replace(old,new,1)
-open(p,'w').write(s)
+open(p,'w').write(s.replace(old,new,1))
 PY
-rc=$?
-if [ $rc -ne 0 ]; then git checkout -- .; exit $rc; fi
-git diff --stat | tail -1
-cd /verif && ./check $prop quick "$@" 2>&1 | grep -E 'VIOLATION|held on|INCONCLUSIVE|error' | head -5
-cd /repo && git checkout -- .
+fi
+git -C $wt diff --stat | tail -1
+cd $h/harness && CARGO_NET_OFFLINE=true cargo build --release --offline 2>&1 | grep -E '^error' -A8 | head -20
+FV_ROOT=$h ./target/release/fv $prop quick "$@" 2>&1 | grep -E '^VIOLATION|held on|INCONCLUSIVE|KNOWN' | cut -c1-260 | head -6
+git -C $wt reset -q --hard
